@@ -43,24 +43,25 @@ Proof.
 Qed.
 
 (* C06, stream level: Encode then Decode returns the values that were put in.  For every well-formed File in
-   the representable domain whose record list stays off the two recorded time-rule defects of the decoder
-   (no_time_quirk, C12), both byte orders, both header sizes, every decode option set, every accumulator state
+   the representable domain, both byte orders, both header sizes, every decode option set, every accumulator state
    reachable in a process that has only seen such Files (ginv: the total_cycles / accumulated_power accumulators
    have mask 0 and value 0), every reader (chunk schedule, trailing bytes): Decode of the bytes Encode wrote
-   succeeds, consumes exactly those bytes, reports the header written, and returns a File with content_eq6. *)
+   succeeds, consumes exactly those bytes, reports the header written, and returns a File with content_eq6.
+   There is no side condition on the times in the File: the decoder's two time-rule defects (C12) are repaired
+   (fixed: ac9b0b0, 2f21531), the stream theorem Decode_denote holds for every well-formed stream, and a
+   local_date_time value reads back with the wall clock reading written whatever the reference is (den_time_local). *)
 Theorem roundtrip f be bs f' o g rd fuel extra :
   wf_file f = true -> wf_header (f_header f) = true ->
   proto_ok (h_proto (f_header f)) = true -> h_profile (f_header f) < 65536 ->
   in_domain f = true -> ginv g ->
   encode f be = EOk (bs, f') -> N.of_nat (List.length bs) < 4294967296 ->
-  no_time_quirk (file_recs f be) = true ->
   rd_data rd = bs ++ extra -> (List.length (rd_data rd) + List.length (rd_sched rd) < fuel)%nat ->
   exists rd' file' g' q,
     entry_Decode o g rd fuel =
       TDone (mk_dres None (wire_header (f_header f) (N.of_nat (List.length (ser_records (file_recs f be))))) (Some file') rd' g' q) /\
     content_eq6 f file' = true /\ ginv g' /\ rd_data rd' = extra /\ rd_pos rd' = (rd_pos rd + List.length bs)%nat.
 Proof.
-  intros Hwf Hh Hpo Hpr Hdom Hg Henc Hlen Hq Hrd Hfuel.
+  intros Hwf Hh Hpo Hpr Hdom Hg Henc Hlen Hrd Hfuel.
   pose proof (encode_is_serialize_recs f be bs f' Hwf Hh Hpo Hpr Henc Hlen) as HS. cbv zeta in HS.
   set (rs := file_recs f be) in *. set (h := wire_header (f_header f) (N.of_nat (List.length (ser_records rs)))) in *.
   destruct HS as (Hbs & Hhw & Hds & Hlay & Hswf & Hst).
@@ -69,7 +70,7 @@ Proof.
   destruct (route_roundtrip_g f msgs' h g Hwf Hdom HF Hg) as (f2 & g1 & fr & gr & Hstart & Hroute & Hgr & Hcontent).
   rewrite <- Hmsgs in Hstart, Hroute.
   rewrite Hbs in Hrd.
-  destruct (Decode_denote o g rd fuel h rs ss1 f2 g1 extra Hhw Hds Hst Hswf Hq Hden Hstart Hrd Hfuel)
+  destruct (Decode_denote o g rd fuel h rs ss1 f2 g1 extra Hhw Hds Hst Hswf Hden Hstart Hrd Hfuel)
     as (rd' & file' & fd & g' & q & Hdec & Hroute' & Hsl & Hin & _ & _ & _ & _ & Hpos & Hdata).
   rewrite Hroute in Hroute'. inversion Hroute'; subst fd g'.
   exists rd', file', gr, q. split; [exact Hdec|]. split; [now apply Hcontent|]. split; [exact Hgr|]. split; [exact Hdata|]. now rewrite Hbs.
@@ -81,13 +82,12 @@ Corollary roundtrip_init f be bs f' rd fuel :
   wf_file f = true -> wf_header (f_header f) = true ->
   proto_ok (h_proto (f_header f)) = true -> h_profile (f_header f) < 65536 ->
   in_domain f = true -> encode f be = EOk (bs, f') -> N.of_nat (List.length bs) < 4294967296 ->
-  no_time_quirk (file_recs f be) = true ->
   rd_data rd = bs -> (List.length (rd_data rd) + List.length (rd_sched rd) < fuel)%nat ->
   exists r file', entry_Decode no_opts g_init rd fuel = TDone r /\ dr_err r = None /\ dr_file r = Some file' /\
                   content_eq6 f file' = true.
 Proof.
-  intros Hwf Hh Hpo Hpr Hdom Henc Hlen Hq Hrd Hfuel.
-  destruct (roundtrip f be bs f' no_opts g_init rd fuel [] Hwf Hh Hpo Hpr Hdom ginv_init Henc Hlen Hq) as (rd' & file' & g' & q & Hdec & Hc & _);
+  intros Hwf Hh Hpo Hpr Hdom Henc Hlen Hrd Hfuel.
+  destruct (roundtrip f be bs f' no_opts g_init rd fuel [] Hwf Hh Hpo Hpr Hdom ginv_init Henc Hlen) as (rd' & file' & g' & q & Hdec & Hc & _);
     [now rewrite app_nil_r|exact Hfuel|].
   eexists _, file'. split; [exact Hdec|]. cbn [dr_err dr_file]. auto.
 Qed.
@@ -97,11 +97,10 @@ Qed.
 Lemma roundtrip_example :
   wf_file ex_file = true /\ wf_header (f_header ex_file) = true /\ proto_ok (h_proto (f_header ex_file)) = true /\
   h_profile (f_header ex_file) < 65536 /\ in_domain ex_file = true /\
-  (exists bs f', encode ex_file true = EOk (bs, f') /\ N.of_nat (List.length bs) < 4294967296) /\
-  no_time_quirk (file_recs ex_file true) = true.
+  (exists bs f', encode ex_file true = EOk (bs, f') /\ N.of_nat (List.length bs) < 4294967296).
 Proof.
   split; [vm_compute; reflexivity|]. split; [vm_compute; reflexivity|]. split; [vm_compute; reflexivity|].
-  split; [vm_compute; reflexivity|]. split; [vm_compute; reflexivity|]. split; [|vm_compute; reflexivity].
+  split; [vm_compute; reflexivity|]. split; [vm_compute; reflexivity|].
   destruct (encode ex_file true) as [[bs f']| |] eqn:E; [|vm_compute in E; discriminate|vm_compute in E; discriminate].
   exists bs, f'. split; [reflexivity|].
   assert (Hb : bs = ex_encoded true) by (unfold ex_encoded; now rewrite E). rewrite Hb. vm_compute. reflexivity.
